@@ -14,7 +14,7 @@ from .common import (ModelGap, Obs, Violation, World, base_result, blueprint_pro
                      compile_case, fmt_sigs, input_inits, bind_input_aliases, merge_fired, net_signature, probe, settle_bound,
                      skeleton)
 
-from ..diagnose import crosstalk_sites
+from ..diagnose import crosstalk_sites, multi_cond_both_colour_sites
 
 PROP = "C01"
 WILD = ("signal-each", "signal-anything", "signal-everything")
